@@ -245,3 +245,24 @@ Print Assumptions C18_no_crash.
 Theorem C18_run_case_status : forall args, hd 9 (run_case args) = ST_OK \/ hd 9 (run_case args) = ST_BADCASE.
 Proof. exact run_case_status. Qed.
 Print Assumptions C18_run_case_status.
+
+(* A helper called on buf[:n] of a LARGER buffer (a Go slice with len < cap, e.g. a prefix of a dirty arena): whatever
+   bytes [snd p] lie behind the inputs [fst p], the call (operation 28 of the harness) answers exactly what the helper
+   answers on the inputs alone, and the bytes behind every input are afterwards what they were - the helpers are
+   functions of the len bytes of their arguments and write nowhere else. *)
+Theorem C18_window_frame : forall iop ps extra,
+  let out := run_op_base iop (map fst ps ++ extra) in
+  hd 9 out = ST_OK ->
+  run_case ([28] :: [iop] :: win_lens ps :: win_bufs ps ++ extra) = ST_OK :: lenZ out :: out ++ concat (map snd ps).
+Proof. exact window_frame. Qed.
+Print Assumptions C18_window_frame.
+
+(* Helpers called by g goroutines of one process for any number of rounds (operation 29): the model helpers have no
+   state, so every case has ONE answer, the one it gives when called alone. What this theorem fixes is the
+   specification the implementation is held against; that the Go helpers really share no state between concurrent
+   calls is VALIDATED by running them in parallel (manifest level_note), not proved. *)
+Theorem C18_concurrent_independent : forall g rounds cases, 1 <= g <= 64 -> 1 <= rounds ->
+  run_case ([29] :: [g; rounds] :: conc_groups cases) =
+  ST_OK :: lenZ cases :: wire_conc (map (fun c => run_op_base (fst c) (snd c)) cases).
+Proof. exact conc_independent. Qed.
+Print Assumptions C18_concurrent_independent.
